@@ -329,16 +329,84 @@ def rule_kwargs_from_edges(ctx: Ctx, out: Collector) -> None:
 # ---------------------------------------------------------------------------------------------
 
 def _connect_functions(ctx: Ctx) -> List[FuncUnit]:
+    """Functions that cut a sub-dag between two nodes out of a graph: they take (graph, source, dest), return
+    `<graph>.subgraph(<node set>)` and record source / dest on it."""
     out = []
     for unit in ctx.p.functions.values():
-        if isinstance(unit.node, ast.Lambda):
+        if isinstance(unit.node, ast.Lambda) or len(unit.params()) < 3:
             continue
         env = FuncEnv.of(ctx.p, unit)
+        has_sub = False
+        sets_ends = 0
         for n in env.own_nodes():
-            if isinstance(n, ast.Call) and any(t[0] == 'ext' and t[1].endswith('all_simple_paths') for t in env.resolve_call(n)):
-                out.append(unit)
-                break
+            if isinstance(n, ast.Call) and isinstance(n.func, ast.Attribute) and n.func.attr == 'subgraph' \
+                    and isinstance(n.func.value, ast.Name) and n.func.value.id in unit.params():
+                has_sub = True
+            if isinstance(n, ast.Attribute) and isinstance(n.ctx, ast.Store) and n.attr in ('source', 'dest'):
+                sets_ends += 1
+        if has_sub and sets_ends >= 2:
+            out.append(unit)
     return out
+
+
+def rule_subgraph_node_set(ctx: Ctx, out: Collector) -> None:
+    """RC-7: the sub-dag between source and dest consists of exactly the nodes on dependency paths from source
+    to dest (descendants of the source that are ancestors of the destination, plus the end points)."""
+    units = _connect_functions(ctx)
+    if not units:
+        raise AnalysisError('connected-subgraph function not found (RC-7 / SW-1 anchor vanished)')
+    for unit in units:
+        env = FuncEnv.of(ctx.p, unit)
+        params = unit.params()
+        g_, src_, dst_ = params[0], params[1], params[2]
+        sub = None
+        for n in env.own_nodes():
+            if isinstance(n, ast.Call) and isinstance(n.func, ast.Attribute) and n.func.attr == 'subgraph' and n.args:
+                sub = n
+        cons = f'{unit.module.name}::{unit.qualname}::node set = nodes on paths {src_} -> {dst_}'
+        if sub is None:
+            raise AnalysisError(f'{unit.fid}: subgraph(...) call not found')
+        from ..cfg import Inst
+        exprs = [e for e, i in resolve_all(ctx.p, sub.args[0], Inst(unit, None, None, {}))]
+        txt = ' '.join(unparse(e) for e in exprs)
+        calls = {}
+        for e in exprs:
+            for c in ast.walk(e):
+                if isinstance(c, ast.Call):
+                    d = (dotted(c.func) or '').split('.')[-1]
+                    calls.setdefault(d, []).append(c)
+        verdict = None
+        if 'all_simple_paths' in calls:
+            c = calls['all_simple_paths'][0]
+            args = [unparse(a) for a in c.args]
+            if args[:3] == [g_, src_, dst_]:
+                verdict = ('ok', f'all nodes of nx.all_simple_paths({g_}, {src_}, {dst_})')
+            else:
+                verdict = ('bad', f'all_simple_paths({", ".join(args)}) is not taken from {src_} to {dst_}')
+        elif 'ancestors' in calls or 'descendants' in calls:
+            anc_dst = any(len(c.args) >= 2 and unparse(c.args[1]) == dst_ for c in calls.get('ancestors', []))
+            desc_src = any(len(c.args) >= 2 and unparse(c.args[1]) == src_ for c in calls.get('descendants', []))
+            inter = any(isinstance(x, ast.BinOp) and isinstance(x.op, ast.BitAnd) for e in exprs for x in ast.walk(e)) or '.intersection(' in txt
+            if anc_dst and desc_src and inter:
+                verdict = ('ok', f'descendants({src_}) & ancestors({dst_})')
+            else:
+                missing = []
+                if not desc_src:
+                    missing.append(f'not restricted to descendants of {src_}')
+                if not anc_dst:
+                    missing.append(f'not restricted to ancestors of {dst_}')
+                if anc_dst and desc_src and not inter:
+                    missing.append('the two sets are not intersected')
+                verdict = ('bad', '; '.join(missing))
+        if verdict is None:
+            raise AnalysisError(f'{unit.fid}: the node set {txt[:80]} is not a recognised reachability idiom')
+        if verdict[0] == 'ok':
+            out.ok('RC-7', cons, ctx.p.loc(unit, sub), verdict[1])
+        else:
+            out.bad('RC-7', cons, ctx.p.loc(unit, sub),
+                    f'the sub-dag is not exactly the nodes on dependency paths from {src_} to {dst_} ({verdict[1]}): side inputs outside the '
+                    f'recurrent subgraph are pulled in, re-armed and re-executed on every iteration (or needed nodes are left out)',
+                    props={'C04', 'C11', 'C03'})
 
 
 def rule_filtered_view(ctx: Ctx, out: Collector) -> None:
